@@ -74,6 +74,28 @@ func main() {
 				seed = 1
 			}
 			rc = runCheck(id, tier, seed)
+		case "gentest":
+			// Generator self-test: every generated program must build with the regular toolchain.
+			n, _ := strconv.Atoi(os.Args[2])
+			bad := 0
+			parallel(n, 4, func(i int) {
+				p := generate(subRand(int64(i), "gentest"), GenOpts{})
+				w := materialize(p, fmt.Sprintf("gt%d", i))
+				bin := w.Root + "/plain.bin"
+				r := w.plainBuild(bin, false)
+				if !r.OK() {
+					bad++
+					fmt.Printf("program %d (%v): plain build failed:\n%s\n", i, p.Features, clip(r.Err, 2500))
+					return
+				}
+				rr := runBin(bin, []string{"a", "b"}, nil, 0)
+				if !rr.OK() {
+					bad++
+					fmt.Printf("program %d (%v): run failed: %s\n", i, p.Features, rr)
+				}
+				w.cleanup()
+			})
+			fmt.Println("gentest done, bad =", bad)
 		case "replay":
 			if len(os.Args) < 3 {
 				usage()
